@@ -407,8 +407,16 @@ class Check:
                     write_if_changed(os.path.join(LEAN, rel), content)
         # Lean
         mods = p.get("lean_modules", [])
-        targets = list(mods) + ["drv_" + e.lower() for e in p.get("lean_engines", engines)]
-        ok, out, failed = lake_build(targets)
+        # drivers first and on their own: a theorem that no longer builds must not take the model
+        # driver down with it, or the differential run and the failing-input search could not happen
+        drv_targets = ["drv_" + e.lower() for e in p.get("lean_engines", engines)]
+        drv_ok = True
+        if drv_targets:
+            drv_ok, dout, dfailed = lake_build(drv_targets)
+            if not drv_ok:
+                for f in (dfailed[:5] or ["driver-build"]):
+                    self.oblige("lean:" + f.split(" :: ")[0], "tie", False, f + "\n" + dout[-2000:])
+        ok, out, failed = lake_build(list(mods)) if mods else (True, "", [])
         self.lake_ok = ok
         if not ok:
             tail = out[-3000:]
@@ -419,7 +427,7 @@ class Check:
                 self.oblige("lean:build", "thm", False, tail)
         for e in p.get("lean_engines", engines):
             src = os.path.join(LEAN, ".lake", "build", "bin", "drv_" + e.lower())
-            if os.path.exists(src) and ok:
+            if os.path.exists(src) and drv_ok:
                 dst = os.path.join(self.tmp, "drv_" + e.lower())
                 shutil.copy2(src, dst)
                 self.drivers[e] = dst
